@@ -145,6 +145,7 @@ type caseRun struct {
 	neTaint  map[string]bool // a faulted read answered "not there"
 	quiet    bool
 	dead     bool
+	hung     bool
 	injected int
 }
 
@@ -204,6 +205,7 @@ func (c *caseRun) observe(w []string, out string, injected bool) {
 	if out == "hang" || out == "panic" {
 		c.fail(out+"-in-"+kind, strings.Join(w, " "), "an answer", out)
 		c.dead = true
+		c.hung = out == "hang"
 		return
 	}
 	key := ""
@@ -490,6 +492,7 @@ func schedPattern(scheds []string) string {
 }
 
 func genCases(r *hk.Run) {
+	totalHangs := 0
 	rnd := r.R
 	nTrees, nHist, nSingles, nBursts := 40, 16, 8, 4
 	if r.Thorough() {
@@ -542,8 +545,21 @@ func genCases(r *hk.Run) {
 		for i := range healthy {
 			healthy[i] = pad("", 60)
 		}
-		calls, _ := runCase(r, tree, healthy, pool, hist, cont, label+" healthy")
-		if calls == nil {
+		if totalHangs >= 4 {
+			// a wedging defect: every further case would cost a watchdog period and say the same
+			r.Hit("trees-skipped-after-hangs")
+			continue
+		}
+		treeHangs := 0
+		countHang := func(c *caseRun) bool {
+			if c != nil && c.hung {
+				treeHangs++
+				totalHangs++
+			}
+			return treeHangs >= 2
+		}
+		calls, hc := runCase(r, tree, healthy, pool, hist, cont, label+" healthy")
+		if countHang(hc); calls == nil {
 			continue
 		}
 		type single struct {
@@ -581,6 +597,10 @@ func genCases(r *hk.Run) {
 			_, c := runCase(r, tree, scheds, pool, hist, cont, fmt.Sprintf("%s single leaf%d call%d %c", label, s.leaf, s.at, s.kind))
 			r.Hit("single:" + string(s.kind))
 			finish(c, scheds)
+			if countHang(c) {
+				r.Hit("cases-skipped-after-2-hangs-of-a-tree")
+				break
+			}
 		}
 		for k := 0; k < nBursts; k++ {
 			scheds := make([]string, len(leaves))
@@ -599,9 +619,13 @@ func genCases(r *hk.Run) {
 				}
 				scheds[i] = pad(string(b), calls[i]+20)
 			}
+			if treeHangs >= 2 {
+				break
+			}
 			_, c := runCase(r, tree, scheds, pool, hist, cont, fmt.Sprintf("%s burst%d", label, k))
 			r.Hit("burst")
 			finish(c, scheds)
+			countHang(c)
 			if t < 2 && k == 0 {
 				ops := r.CaseOps()
 				if len(ops) > 5 {
